@@ -4,14 +4,20 @@ Proof: Props/C12.lean — the typestate monitor is equivalent to the declarative
 library's receive-path / hand-over / pending-clone path programs obey it for every handler behaviour.
 Tie: hook h1 (message/pool lifecycle tracker + poison, build tag verif): the real acquire/release trace of every
 scenario is recorded and validated by the monitor; for `path` scenarios the projection of the real trace must equal the
-path program of the model (correspondence of the hand abstraction).
+path program of the model (correspondence of the hand abstraction); for `obs` / `bw` scenarios (the real observation handler
+and block-wise layer over a tracking pool, step marks in the trace) every recorded step must be a step of the path programs of
+Model/OwnershipPaths.lean with the same events (Props/C12Paths.lean: every schedule of those programs is accepted).
 """
 import itertools
 import random
 
 from . import common
 
-MODULES = ["CoapVerif.Props.C12"]
+MODULES = ["CoapVerif.Props.C12", "CoapVerif.Props.C12Paths"]
+
+
+PATHS_OBS = ["basic", "cancelcb", "hijack", "getreq"]
+PATHS_BW = ["doupload", "doabort", "download", "upload", "sweepappend", "bwresponse", "bwnotify", "write", "obsblock"]
 
 
 def scenarios(ctx):
@@ -42,6 +48,24 @@ def scenarios(ctx):
         S.append("scn udp blockwise %d" % n)
     for i in range(40 if thorough else 8):
         S.append("scn udp mix %d %d" % (rng.randrange(1 << 30), rng.choice([4, 8, 16])))
+    # the same situations on real connections (hook h1), under the monitor: a notification inside its callback while the
+    # observation is cancelled, block-wise notifications, a Do given up mid-transfer with a late answer, the expiry sweep
+    # around the last block of a stalled upload
+    S.append("scn udp obscancel 3")
+    S.append("scn udp obsblock %d" % (4 if thorough else 2))
+    for n in ([0, 1, 2, 3] if thorough else [1, 2]):
+        S.append("scn udp doabandon %d" % n)
+    for o in ["both", "sweepfirst", "blockfirst"]:
+        S.append("scn udp bwsweep " + o)
+    # path programs of the observation callbacks and of the block-wise layer (Model/OwnershipPaths.lean): the real
+    # observation.Handler / blockwise.BlockWise over a tracking pool, step marks in the trace (harness/c12 paths_test.go)
+    # two pool modes: LIFO re-use, and `fresh` (no re-use: a double release cannot hide behind a re-acquisition)
+    for k in PATHS_OBS:
+        S.append("scn obs " + k)
+        S.append("scn obs %s fresh" % k)
+    for k in PATHS_BW:
+        S.append("scn bw " + k)
+        S.append("scn bw %s fresh" % k)
     return sorted(set(S), key=S.index)
 
 
@@ -80,6 +104,7 @@ def explore(ctx, art):
     distinct = set()
     events = 0
     matched = 0
+    steps_matched = 0
     for i, (l, o) in enumerate(zip(lines, impl)):
         if not o.startswith("trace"):
             ctx.violations.append(common.Violation("no-crash", "C12:" + l, "%s -> %s" % (l, o[:200]), {"input": [l], "observed": o[:2000]}))
@@ -102,6 +127,10 @@ def explore(ctx, art):
         if model is not None:
             if model[i] == "match":
                 matched += 1
+            elif model[i].startswith("match "):
+                # a path-program scenario: every step of the recorded run is a step of the program with the same events
+                matched += 1
+                steps_matched += int(model[i].split()[1])
             elif model[i].startswith("differs"):
                 ctx.broken.append(("correspondence", "C12 path program vs implementation", "%s: %s" % (l, model[i][:400])))
     # lifecycle traces recorded while the harnesses of other properties run their scenarios (interruption grid of C09: all the
@@ -113,11 +142,15 @@ def explore(ctx, art):
     ctx.cov["distinct_nontrivial"] = len(distinct)
     ctx.cov["traces_validated_against_impl"] = len(lines)
     ctx.cov["path_programs_matched"] = matched
+    ctx.cov["path_steps_matched"] = steps_matched
     ctx.cov["rule"] = ("one trace per scenario: receive path with every handler behaviour over {SetMessage, Swap, release-of-swapped, Hijack, "
                        "SetResponse} up to length %d (+ random longer) on udp and tcp; client requests against a scripted peer (piggybacked, "
                        "separate + duplicate, duplicate ACK, reset, silence with retransmissions and expiry sweeps, cancellation); observe with "
                        "0..6 notifications and cancel; block-wise POST/response between two real connections; concurrent mixed traffic with "
-                       "housekeeping ticks. evaluations = lifecycle events checked; non-trivial trace = contains an application hold and a release; "
+                       "housekeeping ticks; observation callbacks (cancel while notifications are in their callbacks, hijacked notification, copies "
+                       "for the block-wise layer) and block-wise paths (Do upload / abandoned mid-transfer / download, reassembly with an expiry "
+                       "sweep during the append, response in blocks, block-wise notification both ways, WriteMessage) over a tracking pool, "
+                       "compared step by step with the path programs. evaluations = lifecycle events checked; non-trivial trace = contains an application hold and a release; "
                        "distinct by the exact trace." % (3 if ctx.tier == "thorough" else 2))
     for l, o in list(zip(lines, impl))[:2]:
         ctx.sample({"scenario": l, "trace": o[:400]})
